@@ -105,6 +105,8 @@ def gen_ip_lines(rng, fcfg, nlines, near=True):
         t4 = ipgen.build({"fam": 4, "salt": fcfg["salt"], "B": fcfg.get("B4"), "pp": fcfg.get("pp"), "pa": fcfg.get("pa")})
         t6 = ipgen.build({"fam": 6, "salt": fcfg["salt"], "B": fcfg.get("B6")})
         pool4 += [t4.deanonymize(rng.choice(ipgen.MASKS[2:-2])) for _ in range(2)]
+        # ... and originals whose image is a discontiguous whole-octet wildcard (0.255.0.255): NOT a mask, must come back
+        pool4 += [t4.deanonymize(rng.choice(ipgen.OCTET_WILDCARDS)) for _ in range(2)]
         for base, plen in ((0xFE80 << 112, 10), (0xFF02 << 112, 16), (0xFFFF << 32, 96), (0, 96), (0xFC << 120, 7)):
             pool6.append(t6.deanonymize(base | rng.getrandbits(128 - plen)))
     except Exception:
@@ -119,7 +121,12 @@ def gen_ip_lines(rng, fcfg, nlines, near=True):
                 toks.append([txt, {"t": "v4", "v": v, "sp": sp}])
             elif r < 0.5:
                 v = rng.choice(pool6) if rng.random() < 0.5 else rng.getrandbits(128) >> rng.choice([0, 0, 16, 64, 96])
-                txt, sp = lines.v6_text(rng, v)
+                if rng.random() < 0.08:
+                    # every group below 0x100, written with two digits per group
+                    v = sum(rng.randrange(256) << (16 * i) for i in range(8))
+                    txt, sp = lines.v6_text(rng, v, rng.choice(["pad2", "pad2", "nozip"]))
+                else:
+                    txt, sp = lines.v6_text(rng, v)
                 toks.append([txt, {"t": "v6", "v": v, "sp": sp}])
             elif r < 0.6:
                 v = rng.choice(ipgen.MASKS)
@@ -139,6 +146,22 @@ def gen_ip_lines(rng, fcfg, nlines, near=True):
             else:
                 toks.append([rng.choice(lines.BENIGN), {"t": "w"}])
         out.append(lines.ip_line(rng, toks))
+    if rng.random() < 0.06:
+        # one very long line (a prefix list / object group exported on one line): a few thousand characters of addresses
+        toks = []
+        for _ in range(rng.randint(230, 330)):
+            if rng.random() < 0.8:
+                v = rng.getrandbits(32)
+                toks.append([lines.v4_text(rng, v, "canon")[0], {"t": "v4", "v": v, "sp": "canon"}])
+            else:
+                v = rng.getrandbits(128)
+                toks.append([lines.v6_text(rng, v, "canon")[0], {"t": "v6", "v": v, "sp": "canon"}])
+        segs = [["prefix-list X: ", {"t": "d"}]]
+        for i, tk in enumerate(toks):
+            if i:
+                segs.append([", ", {"t": "d"}])
+            segs.append(tk)
+        out.append(segs)
     return out
 
 
